@@ -120,6 +120,10 @@ def check(run, project):
         c01.framing(RuleView(run, "F", "A11"), MarshalRoles(project), ctx.layout(project))
     except AnalysisError as ex:
         run.info(f"A11: the message walkers could not be followed ({ex}); not judged here (C01 reports it)")
+    # A12: the object a Canonical was built from is the object it hands back (and re-encodes): the slots the constructor fills
+    # from its input are assigned later only where they are empty
+    from .shared import canonical_fill_once
+    canonical_fill_once(run, project, "A12", "`.object` fails or is replaced by what the event generator returned")
     run.floor("A1", 100)
     run.floor("A2", 500)
 
